@@ -62,8 +62,41 @@ func generalizeErr(err error) error {
 		}
 	}
 
-	// if it is not a well known error, return it
-	return err
+	// if it is not a well known error, return it - without the text of any *net.OpError
+	// wrapper, which contains the client's address
+	return stripAddrs(err)
+}
+
+// addrFreeErr stands in for an unanticipated error whose chain contains a *net.OpError. Such an
+// error prints as "op net src->dst: cause", i.e. with the addresses of both endpoints, and the
+// callers log it or store its text in tunnel statistics. The replacement text keeps the operation
+// and the cause only; the original error stays reachable for errors.Is / errors.As.
+type addrFreeErr struct {
+	msg string
+	err error
+}
+
+func (e addrFreeErr) Error() string { return e.msg }
+func (e addrFreeErr) Unwrap() error { return e.err }
+
+func stripAddrs(err error) error {
+	var op *net.OpError
+	if !errors.As(err, &op) {
+		return err
+	}
+	cause := op.Err
+	for {
+		var inner *net.OpError
+		if cause == nil || !errors.As(cause, &inner) {
+			break
+		}
+		cause = inner.Err
+	}
+	msg := op.Op
+	if cause != nil {
+		msg += ": " + cause.Error()
+	}
+	return addrFreeErr{msg: msg, err: err}
 }
 
 // this function is kinda ugly, uses undecorated logger, and passes things around it doesn't have to
